@@ -5,11 +5,12 @@
    rotations in the documented order, from_rotvec / as_rotvec round-trip.
    as_euler (Bernardes-Viollet) is proved in the regular case for all sequences (C12_as_euler_regular) and at exact gimbal
    lock (C12_as_euler_gimbal); in the band 0 < |second angle - lock| <= 1e-7 the code's answer is approximate (not covered).
-   NOT proved (decided by three-way correspondence implementation / scipy only, see C12.py): mean,
-   align_vectors (beyond its Rodrigues kernel), from_matrix on non-orthogonal input. *)
+   align_vectors for one vector pair / the primary pair of the infinite-weight branch maps b onto a exactly (C12_align_single_pair,
+   C12_align_antiparallel).  NOT proved (decided by three-way correspondence implementation / scipy only, see C12.py): mean,
+   align_vectors with several finite weights (SVD), from_matrix on non-orthogonal input. *)
 From MrVerif Require Import Base.Prelude Base.StarRing Model.Rotation Model.Euler
   Proofs.RotationProofs Proofs.RotationRealProofs Proofs.RotationPowProofs Proofs.EulerProofs Proofs.EulerAnglesProofs
-  Proofs.EulerGimbalProofs.
+  Proofs.EulerGimbalProofs Proofs.AlignProofs.
 From Coq Require Import Reals.
 
 (* _quaternion_to_matrix is the standard rotation matrix of q: M(q) v = vector part of q (v,0) q^*; and M(q) = M(-q) *)
@@ -128,3 +129,27 @@ Example C12_example_euler :
   qq (from_euler_sc QcRing false [0%nat; 1%nat] [(qcq 3 5, qcq 4 5); (qcq 5 13, qcq 12 13)])
   = qq (qmul QcRing (elementary_sc QcRing 1 (qcq 5 13) (qcq 12 13)) (elementary_sc QcRing 0 (qcq 3 5) (qcq 4 5))).
 Proof. vm_compute. reflexivity. Qed.
+
+(* ---- align_vectors, one vector pair (also the primary pair when one weight is infinite): the code builds Rodrigues' matrix about b x a with
+   the angle atan2(|b x a|, a . b) (statements pinned by the translator, ALIGN_PINS).  That angle has cosine a . b and sine |b x a|, and the
+   matrix maps b onto a exactly - for all unit vectors that are not (anti)parallel *)
+Theorem C12_align_angle : forall (a b : vecR) (s : R),
+  dot3 RRing a a = 1%R -> dot3 RRing b b = 1%R -> (0 < s)%R -> (s * s)%R = dot3 RRing (cross3 RRing b a) (cross3 RRing b a) ->
+  cos (atan2 s (dot3 RRing a b)) = dot3 RRing a b /\ sin (atan2 s (dot3 RRing a b)) = s.
+Proof. exact align_angle. Qed.
+Print Assumptions C12_align_angle.
+Theorem C12_align_single_pair : forall (a b : vecR) (s : R),
+  dot3 RRing a a = 1%R -> dot3 RRing b b = 1%R -> (0 < s)%R -> (s * s)%R = dot3 RRing (cross3 RRing b a) (cross3 RRing b a) ->
+  mapply RRing (rodrigues RRing (vscal RRing (/ s)%R (cross3 RRing b a)) (dot3 RRing a b) s) b = a.
+Proof. exact align_single_pair. Qed.
+Print Assumptions C12_align_single_pair.
+(* antiparallel pair (repair 3492450): the half turn about a unit axis orthogonal to b maps b onto -b = a; the axis the code picks
+   (zero at the smallest component, the other two swapped with one sign flipped) is orthogonal to the vector *)
+Theorem C12_align_antiparallel : forall (b u : vecR), dot3 RRing u u = 1%R -> dot3 RRing u b = 0%R ->
+  mapply RRing (rodrigues RRing u (-1)%R 0%R) b = vscal RRing (-1)%R b.
+Proof. exact align_antiparallel. Qed.
+Print Assumptions C12_align_antiparallel.
+Theorem C12_align_antiparallel_axis : forall a0 a1 a2 : R,
+  dot3 RRing (0, a2, - a1)%R (a0, a1, a2) = 0%R /\ dot3 RRing (- a2, 0, a0)%R (a0, a1, a2) = 0%R /\ dot3 RRing (a1, - a0, 0)%R (a0, a1, a2) = 0%R.
+Proof. exact antiparallel_axis_orthogonal. Qed.
+Print Assumptions C12_align_antiparallel_axis.
